@@ -5,7 +5,7 @@ tier=${1:-quick}
 rc=0
 for p in $(python3 -c "import json;print(' '.join(c['property_id'] for c in json.load(open('MANIFEST.json'))['checks']))"); do
   s=$(date +%s)
-  out=$(./check $p $tier 2>/dev/null); code=$?
+  out=$(./check $p $tier 2>>/tmp/run_all_$tier.err); code=$?
   e=$(date +%s)
   echo "$p exit=$code $((e-s))s $(echo "$out" | tail -1)"
   echo "$out" | grep -E "^(VIOLATION|KNOWN-FINDING)" | head -5
